@@ -44,7 +44,10 @@ def paper_compare(ctx, case, xs, spec, cols=None):
                 ctx.fail('p2-rejected-observation-changes-state', msg + ' (before observation %d)' % i, case)
                 return left_outer
         pres = [p2lib.state(est, c if cols else None) for c in range(ncomp)]
-        est.accumulate(np.array([cols[c][i] for c in range(ncomp)], dtype=float) if cols else xs[i])
+        obs_i = np.array([cols[c][i] for c in range(ncomp)], dtype=float) if cols else xs[i]
+        if cols and case.get('as_lists'):
+            obs_i = obs_i.tolist()          # the same vector spelled as a Python list
+        est.accumulate(obs_i)
         for c in range(ncomp):
             x = cols[c][i] if cols else xs[i]
             r = _paper_one(ctx, case, p, m, pres[c], p2lib.state(est, c if cols else None), x, i, (cols[c] if cols else xs)[:m])
@@ -153,7 +156,39 @@ def convergence_probe(ctx):
     ctx.extra['convergence_probe (test)'] = dict(observations=n, worst_abs_error=round(worst, 4), bound=0.08)
 
 
+def interleaved_estimators_case(ctx):
+    """several estimators alive at once, with different grids, fed in lock step (one per detector channel): each is what it would be alone"""
+    rng = ctx.rng
+    for trial in range(3):
+        specs = [p2lib.gen_grid(rng) for _ in range(rng.choice([2, 3]))]
+        if len({repr(sp) for sp in specs}) < 2:
+            specs[0] = ['quantile', 0.1]
+            specs[-1] = ['quantile', 0.9]
+        n = rng.choice([12, 30, 60])
+        xs = p2lib.gen_seq(rng, n, rng.choice(['uniform', 'gauss', 'tied', 'ints']))
+        alone = []
+        for sp in specs:
+            e = p2lib.make(sp)
+            for x in xs:
+                e.accumulate(x)
+            alone.append(p2lib.state(e))
+        live = [p2lib.make(sp) for sp in specs]
+        for x in xs:
+            for e in live:
+                e.accumulate(x)
+        case = dict(interleaved_estimators=True, specs=specs, n=n, family='lock step', values=xs if n <= 12 else None)
+        ctx.case(('interleaved-estimators', repr(specs), tuple(xs)), True, sample=case)
+        ctx.count('interleaved_estimators')
+        for sp, e, want in zip(specs, live, alone):
+            got = p2lib.state(e)
+            if got[0] != want[0] or got[2] != want[2] or not all(p2lib.same_float(a, b) for a, b in zip(got[1], want[1])):
+                ctx.fail('p2-estimators-share-state', 'estimator %s fed in lock step with %d others ends as %s; fed alone it ends as %s' % (
+                    sp, len(specs) - 1, (got[0], got[1][:6], got[2][:6]), (want[0], want[1][:6], want[2][:6])), case)
+                break
+
+
 def check(ctx):
+    interleaved_estimators_case(ctx)
     from harness import formulas
     formulas.check_formulas(ctx, ['CDFEstimator._linear', 'CDFEstimator._parabolic', 'QuantileEstimator.grid'])
     rng = ctx.rng
@@ -170,7 +205,7 @@ def check(ctx):
         cols = None
         if rng.random() < 0.3:
             cols = [xs] + [p2lib.gen_seq(rng, n, rng.choice(p2lib.FAMILIES)) for _ in range(rng.choice([1, 2]))]
-            case = dict(spec=spec, family=fam, n=n, shape=[len(cols)], cols=cols, roundtrip=trips, rejects=rej)
+            case = dict(spec=spec, family=fam, n=n, shape=[len(cols)], cols=cols, roundtrip=trips, rejects=rej, as_lists=rng.random() < 0.4)
             sm = c07.small(case)
             ctx.count('array_observations')
         left = paper_compare(ctx, sm, xs, spec, cols)
@@ -188,6 +223,9 @@ def check(ctx):
 
 def replay(ctx, data):
     case = data['case']
+    if case.get('interleaved_estimators'):
+        interleaved_estimators_case(ctx)
+        return
     if case.get('probe') == 'convergence':
         convergence_probe(ctx)
         return
